@@ -106,6 +106,9 @@ func checkC12Woven(env *engine.Env, c C12Case) engine.Outcome {
 			i := i
 			bodies[i] = func() {
 				if c.Mode == "S1v" {
+					// packagers looked up the way a user may spell them (no such packager: an error, no side effect)
+					_, _ = nfpm.Get(strings.ToUpper(c.Formats[i]))
+					_, _ = nfpm.Get(" " + c.Formats[i])
 					_ = cfgs[i].Validate()
 				}
 				res[i] = buildHash(cfgs[i], c.Formats[i])
@@ -305,8 +308,13 @@ func checkC12CLI(env *engine.Env, c C12Case, text string, out *engine.Outcome, v
 		vrt.ShareReset()
 		vrt.ShareGlobals()
 		var r vrt.Result
+		cwdBefore, _ := os.Getwd()
 		gcOff(func() { r = vrt.Run(prefix, bodies...) })
 		out.Transitions++
+		if cwdAfter, _ := os.Getwd(); cwdAfter != cwdBefore {
+			viol("concurrency:working-directory-changed:S4", "schedule %v: the process's working directory is %q after the two runs, it was %q before (a process-wide setting other builds resolve their relative paths against)", prefix, cwdAfter, cwdBefore)
+			os.Chdir(cwdBefore)
+		}
 		for _, rc := range r.Races {
 			races[rc.Where+"|"+rc.First+"|"+rc.Second] = rc
 		}
